@@ -100,6 +100,22 @@ def fake_classes():
     return FakeDK, FakeFormula
 
 
+def rand_selection(rng, nb, repeats=True, kmax=None):
+    """a band selection as the API takes it (a numpy array of band indices; lists / tuples raise TypeError in the
+    unchanged `select_bands >= ib1`): ascending, descending or random order, sometimes with a repeated entry (the
+    unchanged code counts a repeated band twice in weight_select_bands and once in the group filter)"""
+    k = rng.randint(1, kmax or nb)
+    sel = rng.sample(range(nb), k)
+    order = rng.choice(["ascending", "descending", "random", "random"])
+    if order == "ascending":
+        sel.sort()
+    elif order == "descending":
+        sel.sort(reverse=True)
+    if repeats and rng.random() < 0.15:
+        sel.insert(rng.randint(0, len(sel)), rng.choice(sel))
+    return sel
+
+
 def gen_bands(rng, nmax=7):
     """sorted dyadic band energies with multiplets; threshold"""
     th = Fr(rng.choice([1, 3]), rng.choice([16, 64]))
@@ -165,7 +181,7 @@ def corr(ctx):
             sea = rng.random() < 0.5
             sel = None
             if not sea and rng.random() < 0.4:
-                sel = sorted(rng.sample(range(nb), rng.randint(1, nb)))
+                sel = rand_selection(rng, nb)
             th_q = th if rng.random() < 0.7 else th * 2
             queries.append((emin_q, emax_q, sea, sel, th_q, kr0))
         if rng.random() < 0.5:   # the T-C13 pattern and its mirror image
@@ -212,7 +228,7 @@ def corr(ctx):
         kres = rng.random() < 0.4
         sel = None
         if fder > 0 and rng.random() < 0.3:
-            sel = sorted(rng.sample(range(nb), rng.randint(1, nb)))
+            sel = rand_selection(rng, nb)
         salt = rng.randint(0, 1000)
 
         def T(ik, m, salt=salt):           # cumulative trace for non-additive formulas
@@ -540,20 +556,41 @@ def systems_oracle(ctx, scale):
                     if np.abs(dos - want).max() > 1e-11 * (1 + NB) / dEF:
                         ctx.fail(f"DOS {dos.tolist()} is not the central difference of the state count {want.tolist()}",
                                  dict(case, dos=dos))
-            # ---------- 2. band selection (Fermi-surface calculators only)
+            # ---------- 2. band selection (Fermi-surface calculators only): any order of the selection; the result is
+            #               the sum of the single-band results and does not depend on the order; tetra on and off
             if rng.random() < 0.5 and NB > 1:
-                sel = sorted(rng.sample(range(NB), rng.randint(1, NB - 1)))
+                sel = rand_selection(rng, NB, repeats=False, kmax=NB - 1)
+                perm = list(sel)
+                rng.shuffle(perm)
                 with ctx.attempt("DOS(select_bands) on Data_K", dict(case, select_bands=sel)):
                     with quiet():
                         dsel = st.DOS(Efermi=Ef, select_bands=np.array(sel), **common)(dk).data
                     ext = ext_grid(Ef, dEF, 1)
                     refe = [sea_count(Eall, th, x, sel=sel) for x in ext]
                     ctx.case(signature=("dossel", isys, tuple(Ef), th, tuple(sel)), nontrivial=inside)
+                    ctx.count("oracle.select." + ("ascending" if sel == sorted(sel) else "descending"
+                                                  if sel == sorted(sel, reverse=True) else "unsorted"))
                     if min(m for _, m in refe) > 1e-9:
                         want = central_difference(1, np.array([r for r, _ in refe]), dEF)
                         if np.abs(dsel - want).max() > 1e-11 * (1 + NB) / dEF:
                             ctx.fail(f"DOS(select_bands={sel}) {dsel.tolist()} is not the central difference of the count "
                                      f"of selected states {want.tolist()}", dict(case, select_bands=sel))
+                    for tetra in (False, True):
+                        for fml, nm in ((frml.Identity, "Identity"), (frml.VelVel, "VelVel")):
+                            kw = dict(Efermi=Ef, Formula=fml, fder=1, tetra=tetra, **common)
+                            with quiet():
+                                a = StaticCalculator(select_bands=np.array(sel), **kw)(dk).data
+                                b = StaticCalculator(select_bands=np.array(perm), **kw)(dk).data
+                                parts = sum(StaticCalculator(select_bands=np.array([b_]), **kw)(dk).data for b_ in sel)
+                            tol = 1e-11 * (np.abs(parts).max() + np.abs(a).max() + 1e-300)
+                            if np.abs(a - b).max() > tol:
+                                ctx.fail(f"[{nm}, tetra={tetra}] the result depends on the ORDER of select_bands: {sel} -> "
+                                         f"{np.ravel(a)[:4].tolist()}, {perm} -> {np.ravel(b)[:4].tolist()}",
+                                         dict(case, select_bands=sel, permuted=perm, tetra=tetra, formula=nm))
+                            if np.abs(a - parts).max() > tol:
+                                ctx.fail(f"[{nm}, tetra={tetra}] select_bands={sel} is not the sum of the single-band results: "
+                                         f"{np.ravel(a)[:4].tolist()} vs {np.ravel(parts)[:4].tolist()}",
+                                         dict(case, select_bands=sel, tetra=tetra, formula=nm))
             # ---------- 3. fder = n  ==  n-th central difference of the sea calculator, real calculators / formulas
             families = [
                 ("Identity", lambda **kw: st.CumDOS(**kw), {1: lambda **kw: st.DOS(**kw)}, frml.Identity, 1.0, True),
@@ -699,7 +736,7 @@ def ties_oracle(ctx, scale):
         Ef_f = np.array([float(x) for x in Ef])
         sel = None
         if rng.random() < 0.3 and nb > 1:
-            sel = sorted(rng.sample(range(nb), rng.randint(1, nb - 1)))
+            sel = rand_selection(rng, nb, kmax=nb - 1)
         case = dict(E=fk.E_K, Efermi=Ef_f, degen_thresh=float(th), select_bands=sel,
                     note="duck-typed Data_K (E_K, nk, num_wann, cell_volume=1) passed to the real calculators")
         with ctx.attempt("CumDOS/DOS with Fermi levels exactly on group energies", case):
